@@ -84,11 +84,42 @@ Proof.
   destruct (hook_of a r); [destruct (behaviour_of a r)| |]; reflexivity.
 Qed.
 
+(* the responses to a request whose body is cut short or malformed: the connection is never kept *)
+Definition bad_resps (a : app) (r : request) : list response_ev :=
+  match hook_of a r with
+  | HAnswer => [ev 200 (bs "hook") false]
+  | HAnswerClose => [ev 200 (bs "hook") true]
+  | HProceed =>
+      match behaviour_of a r with
+      | BAll | BErr => []
+      | BReadK k => [ev 200 (describe a r (firstn_bytes k [])) false]
+      | BNone st => [ev st (describe a r []) false]
+      | BFirst | BHold | BErrAfter => [ev 200 (describe a r []) false]
+      | BClose => [ev 200 (describe a r []) true]
+      | BReader n => [ev 200 (reader_payload n) false]
+      end
+  end.
+
 Lemma spec_one_bad a r raw ah : rfc_framing raw <> FReject -> view_body (rfc_framing raw) ah = BodyBad ->
-  hook_of a r = HProceed -> behaviour_of a r = BAll -> spec_one a r raw ah = ([], false, []).
+  exists rest', spec_one a r raw ah = (bad_resps a r, false, rest').
 Proof.
-  intros Hne Hv Hh Hb. unfold spec_one. destruct (rfc_framing raw); try contradiction; rewrite Hv, Hh, Hb; reflexivity.
+  intros Hne Hv. unfold spec_one, bad_resps.
+  destruct (rfc_framing raw); try contradiction; rewrite Hv;
+    (destruct (hook_of a r); [destruct (behaviour_of a r)| |]); rewrite ?andb_false_r; eexists; reflexivity.
 Qed.
+
+(* [body_unspecified_for] once the framing is known *)
+Lemma unspec_reject a r raw ah : rfc_framing raw = FReject -> body_unspecified_for a r raw ah = false.
+Proof. intros H. unfold body_unspecified_for. rewrite H. reflexivity. Qed.
+
+Lemma unspec_framed a r raw ah : rfc_framing raw <> FReject ->
+  body_unspecified_for a r raw ah =
+  match view_body (rfc_framing raw) ah with
+  | BodyUnspec => true
+  | BodyBad => match hook_of a r, behaviour_of a r with HProceed, BReadK _ => true | _, _ => false end
+  | BodyOk _ _ => false
+  end.
+Proof. intros H. unfold body_unspecified_for. destruct (rfc_framing raw); try contradiction; reflexivity. Qed.
 
 (* ------------------------------------------------------------------ a head that was read *)
 Lemma read_parsed N sg r : parse_request (firstn N (concat sg)) = Ok r ->
@@ -117,14 +148,38 @@ Proof.
     destruct (content_length (q_hdrs r)) as [n|]; [destruct (N.eqb n 0)|]; discriminate.
 Qed.
 
-(* a request whose body is cut short or malformed, read to the end by the handler: the error is propagated *)
+(* the reader the server builds on a body that is cut short or malformed *)
+Lemma init_IB lo unread h : server_framing' h <> FReject ->
+  view_body (server_framing' h) (lo ++ concat unread) = BodyBad ->
+  IB (from_request lo unread h) [] /\
+  length (reach (body_src (from_request lo unread h))) < body_fuel (from_request lo unread h).
+Proof.
+  intros Hne Hv. rewrite (reader_of_framing _ _ _ Hne).
+  destruct (server_framing' h) as [|n| |] eqn:Ef; cbn [view_body] in Hv.
+  - destruct (spec_decode (lo ++ concat unread)) as [p rest|w|] eqn:Es; try discriminate. split.
+    + cbn [IB new_chunked]. split; [apply Bound_mk|]. exists w. exact Es.
+    + unfold body_fuel, new_chunked. cbn [body_src c_src]. apply (Bound_fuel _ (Bound_mk lo unread)).
+  - destruct (spec_fixed n (lo ++ concat unread)) as [p rest|w|] eqn:Es; try discriminate.
+    unfold spec_fixed in Es. destruct (take_n n (lo ++ concat unread)) as [[d x]|] eqn:Et; [discriminate|].
+    apply take_n_none in Et. split.
+    + cbn [IB new_fixed f_src f_remaining]. rewrite reach_mk_take.
+      pose proof (lenN_firstnN_le_len n (lo ++ concat unread)). lia.
+    + unfold body_fuel, new_fixed. cbn [body_src f_src]. apply (Bound_fuel _ (Bound_mk_take lo unread n)).
+  - discriminate.
+  - contradiction.
+Qed.
+
+(* a request whose body is cut short or malformed: it is answered as the specification says, and either the handler's
+   error is propagated or (fix F21) the connection is not kept - the failed discard of the body is noticed.
+   (A handler that reads part of such a body is not covered: [body_unspecified_for].) *)
 Lemma hor_bad_body a N ka sg r : parse_request (firstn N (concat sg)) = Ok r ->
   rfc_framing (raw_fields (firstn N (concat sg))) <> FReject ->
   view_body (rfc_framing (raw_fields (firstn N (concat sg)))) (skipn (q_offset r) (concat sg)) = BodyBad ->
-  hook_of a r = HProceed -> behaviour_of a r = BAll ->
-  let o := handle_one_request a N ka sg in o_resps o = [] /\ o_ok o = false.
+  match hook_of a r, behaviour_of a r with HProceed, BReadK _ => false | _, _ => true end = true ->
+  let o := handle_one_request a N ka sg in
+  o_resps o = bad_resps a r /\ o_eof o = false /\ (o_ok o = false \/ (o_ok o = true /\ o_keep o = false)).
 Proof.
-  intros Hp Hne Hv Hh Hb. destruct (read_parsed N sg r Hp) as [buf [unread [H1 [H2 H3]]]].
+  intros Hp Hne Hv Hcov. destruct (read_parsed N sg r Hp) as [buf [unread [H1 [H2 H3]]]].
   pose proof (framing_decision _ _ Hp) as Hfr.
   assert (Hah : skipn (q_offset r) (concat sg) = skipn (q_offset r) buf ++ concat unread).
   { rewrite <- H2, skipn_app. replace (q_offset r - length buf) with 0 by lia. reflexivity. }
@@ -133,29 +188,32 @@ Proof.
   assert (Hte : te_present (q_hdrs r) && negb (te_final_chunked (q_hdrs r)) = false).
   { destruct (te_present (q_hdrs r) && negb (te_final_chunked (q_hdrs r))) eqn:E; [|reflexivity].
     exfalso. apply Hne. unfold server_framing'. rewrite E. reflexivity. }
-  rewrite Hte, Hh. unfold run_handler. rewrite Hb.
-  rewrite (reader_of_framing _ _ _ Hne).
-  set (lo := skipn (q_offset r) buf) in *.
-  assert (Hinv : exists e b', read_to_end (body_fuel (match server_framing' (q_hdrs r) with
-                    | FChunked => new_chunked lo unread | FFixed n => new_fixed lo unread n | _ => new_empty lo unread end))
-                  (match server_framing' (q_hdrs r) with
-                    | FChunked => new_chunked lo unread | FFixed n => new_fixed lo unread n | _ => new_empty lo unread end) []
-                  = (inr e, b')).
-  { destruct (server_framing' (q_hdrs r)) as [|n| |] eqn:Ef; cbn [view_body] in Hv.
-    - destruct (spec_decode (lo ++ concat unread)) as [p rest|w|] eqn:Es; try discriminate.
-      apply read_to_end_invalid.
-      + cbn [IB new_chunked]. split; [apply Bound_mk|]. exists w. exact Es.
-      + unfold body_fuel, new_chunked. cbn [body_src c_src]. apply (Bound_fuel _ (Bound_mk lo unread)).
-    - destruct (spec_fixed n (lo ++ concat unread)) as [p rest|w|] eqn:Es; try discriminate.
-      unfold spec_fixed in Es. destruct (take_n n (lo ++ concat unread)) as [[d x]|] eqn:Et; [discriminate|].
-      apply take_n_none in Et.
-      apply read_to_end_invalid.
-      + cbn [IB new_fixed f_src f_remaining]. rewrite reach_mk_take.
-        pose proof (lenN_firstnN_le_len n (lo ++ concat unread)). lia.
-      + unfold body_fuel, new_fixed. cbn [body_src f_src]. apply (Bound_fuel _ (Bound_mk_take lo unread n)).
-    - discriminate.
-    - contradiction. }
-  destruct Hinv as [e [b' Hinv]]. rewrite Hinv. cbv iota beta. split; reflexivity.
+  rewrite Hte.
+  destruct (init_IB (skipn (q_offset r) buf) unread (q_hdrs r) Hne Hv) as [HI Hfu].
+  set (b0 := from_request (skipn (q_offset r) buf) unread (q_hdrs r)) in *.
+  pose proof (located_invalid false b0 [] HI) as Hloc.
+  unfold bad_resps. destruct (hook_of a r) eqn:Eh.
+  - unfold run_handler. destruct (behaviour_of a r) as [|k|st| | | | | |n] eqn:Eb.
+    + destruct (read_to_end_invalid (body_fuel b0) b0 [] HI Hfu) as [e [b' Hinv]]. rewrite Hinv.
+      cbn [o_resps o_keep o_ok o_eof]. split; [reflexivity|]. split; [reflexivity|]. left. reflexivity.
+    + discriminate Hcov.
+    + rewrite Hloc. cbn [o_resps o_keep o_ok o_eof]. rewrite andb_false_r.
+      split; [reflexivity|]. split; [reflexivity|]. right. split; reflexivity.
+    + destruct (read_to_end_invalid (body_fuel b0) b0 [] HI Hfu) as [e [b' Hinv]]. rewrite Hinv.
+      cbn [o_resps o_keep o_ok o_eof located negb andb]. rewrite andb_false_r.
+      split; [reflexivity|]. split; [reflexivity|]. right. split; reflexivity.
+    + rewrite Hloc. cbn [o_resps o_keep o_ok o_eof]. rewrite andb_false_r.
+      split; [reflexivity|]. split; [reflexivity|]. right. split; reflexivity.
+    + cbn [o_resps o_keep o_ok o_eof]. split; [reflexivity|]. split; [reflexivity|]. left. reflexivity.
+    + cbn [o_resps o_keep o_ok o_eof]. split; [reflexivity|]. split; [reflexivity|]. left. reflexivity.
+    + rewrite Hloc. cbn [o_resps o_keep o_ok o_eof]. rewrite andb_false_r.
+      split; [reflexivity|]. split; [reflexivity|]. right. split; reflexivity.
+    + rewrite Hloc. cbn [o_resps o_keep o_ok o_eof]. rewrite andb_false_r.
+      split; [reflexivity|]. split; [reflexivity|]. right. split; reflexivity.
+  - rewrite Hloc. cbn [o_resps o_keep o_ok o_eof]. rewrite andb_false_r.
+    split; [reflexivity|]. split; [reflexivity|]. right. split; reflexivity.
+  - cbn [o_resps o_keep o_ok o_eof].
+    split; [reflexivity|]. split; [reflexivity|]. right. split; reflexivity.
 Qed.
 
 (* ------------------------------------------------------------------ the connection *)
@@ -175,31 +233,24 @@ Hypothesis H_lockstep_split : forall sg r payload rest pfx,
   lockstep a N sg = true ->
   exists reqsegs later, sg = reqsegs ++ later /\ concat reqsegs = pfx /\ concat later = rest /\
     (forall pre, reqsegs <> pre ++ [[]]) /\
-    lockstep a N later = true /\
-    (known_F21 a N sg = false -> known_F21 a N later = false).
-Hypothesis H_known_F21_bad : forall sg r,
-  concat sg <> [] ->
-  parse_request (firstn N (concat sg)) = Ok r ->
-  rfc_framing (raw_fields (firstn N (concat sg))) <> FReject ->
-  view_body (rfc_framing (raw_fields (firstn N (concat sg)))) (skipn (q_offset r) (concat sg)) = BodyBad ->
-  known_F21 a N sg = false -> reads_body a r = true.
+    lockstep a N later = true.
 
 (* the request at the front of a lock-step stream, its body readable: one step of both sides *)
 Lemma conn_step_ok sg r payload rest :
   parse_request (firstn N (concat sg)) = Ok r ->
   rfc_framing (raw_fields (firstn N (concat sg))) <> FReject ->
   view_body (rfc_framing (raw_fields (firstn N (concat sg)))) (skipn (q_offset r) (concat sg)) = BodyOk payload rest ->
-  lockstep a N sg = true -> known_F21 a N sg = false ->
+  lockstep a N sg = true ->
   let o := handle_one_request a N true sg in
   let '(resps, keep, rest') := spec_one a r (raw_fields (firstn N (concat sg))) (skipn (q_offset r) (concat sg)) in
   o_resps o = resps /\ o_eof o = false /\ rest' = (if keep then rest else rest') /\
   (o_ok o = false -> keep = false) /\
   (o_ok o = true -> o_keep o = keep) /\
   (keep = true -> existsb rs_close resps = false /\
-     exists later, o_rest o = later /\ concat later = rest /\ lockstep a N later = true /\ known_F21 a N later = false /\
+     exists later, o_rest o = later /\ concat later = rest /\ lockstep a N later = true /\
                    length rest < length (concat sg)).
 Proof.
-  intros Hp Hne Hv Hls Hf21. set (s := concat sg) in *.
+  intros Hp Hne Hv Hls. set (s := concat sg) in *.
   set (raw := raw_fields (firstn N s)) in *.
   pose proof (offset_pos _ _ Hp) as Hoff0.
   destruct (request_fields_safe _ _ Hp) as [Hoff1 _].
@@ -212,7 +263,7 @@ Proof.
   assert (Hpfx : pfx <> []).
   { unfold pfx. intro C. apply (f_equal (@length byte)) in C. rewrite app_length, Hlen1 in C. cbn [length] in C. lia. }
   destruct (H_lockstep_split sg r payload rest pfx Hs Hpfx Hp Hne Hv Hls)
-    as [reqsegs [later [Hsg [Hcr [Hcl [Hnt [Hls' Hf21']]]]]]].
+    as [reqsegs [later [Hsg [Hcr [Hcl [Hnt Hls']]]]]].
   assert (Hfp : firstn N pfx = firstn (Nat.min N (length pfx)) (firstn N s)).
   { rewrite firstn_firstn. replace (Nat.min (Nat.min N (length pfx)) N) with (Nat.min N (length pfx)) by lia.
     rewrite <- (firstn_firstn s N (length pfx)). f_equal. rewrite Hs, firstn_app, Nat.sub_diag, firstn_all.
@@ -249,18 +300,17 @@ Proof.
   intros Hk. subst keep.
   destruct (spec_keep_no_close a r raw _ payload rest resps true rest' Hne Hv Esp eq_refl) as [Hc _].
   split; [exact Hc|]. exists later. split; [exact Gz3|]. split; [exact Hcl|]. split; [exact Hls'|].
-  split; [exact (Hf21' Hf21)|].
   rewrite Hs, app_length. destruct pfx; [congruence|]. cbn [length]. lia.
 Qed.
 
 Lemma conn_gen : forall F1 sg acc F2 nreq,
   length (concat sg) < F1 -> length (concat sg) < F2 ->
-  lockstep a N sg = true -> known_F21 a N sg = false ->
+  lockstep a N sg = true ->
   snd (spec_conn_f F1 a N (concat sg) acc) <> EUnspec ->
   c_resps (handle_connection F2 a N true sg acc nreq) = fst (spec_conn_f F1 a N (concat sg) acc) /\
   (c_waiting (handle_connection F2 a N true sg acc nreq) = true <-> snd (spec_conn_f F1 a N (concat sg) acc) = EWaiting).
 Proof.
-  induction F1 as [|F1 IH]; intros sg acc F2 nreq HF1 HF2 Hls Hf21 Hun; [lia|].
+  induction F1 as [|F1 IH]; intros sg acc F2 nreq HF1 HF2 Hls Hun; [lia|].
   destruct F2 as [|F2]; [lia|].
   assert (Hhf : length (concat sg) < hfuel sg) by (unfold hfuel; lia).
   cbn [spec_conn_f] in Hun |- *.
@@ -278,46 +328,50 @@ Proof.
     destruct (parse_request (firstn N s)) as [r|e|f] eqn:Ep.
     + (* a head *)
       set (raw := raw_fields (firstn N s)) in *.
-      unfold body_unspecified in Hun |- *.
-      destruct (rfc_framing raw) as [|n| |] eqn:Ef.
-      4:{ (* cannot be framed *)
+      assert (Hcase : rfc_framing raw = FReject \/ rfc_framing raw <> FReject)
+        by (destruct (rfc_framing raw); (left; reflexivity) || (right; discriminate)).
+      destruct Hcase as [Ef|Hne].
+      { (* cannot be framed *)
+        rewrite (unspec_reject a r raw _ Ef) in Hun |- *.
         destruct (hor_reject a N true sg r Ep Ef) as [O1 [O2 [O3 O4]]].
         destruct (hc_stop F2 a N true sg acc nreq O3 O2) as [C1 C2].
-        unfold spec_one. fold raw. rewrite Ef. cbn [fst snd].
+        unfold spec_one. rewrite Ef. cbn [fst snd].
         rewrite C1, C2, O1, O4. split; [reflexivity|]. split; discriminate. }
-      all: rewrite <- Ef in *;
-        assert (Hne : rfc_framing raw <> FReject) by (rewrite Ef; discriminate);
-        destruct (view_body (rfc_framing raw) (skipn (q_offset r) s)) as [payload rest| |] eqn:Ev;
+      rewrite (unspec_framed a r raw _ Hne) in Hun |- *.
+      destruct (view_body (rfc_framing raw) (skipn (q_offset r) s)) as [payload rest| |] eqn:Ev;
         [ | | exfalso; apply Hun; reflexivity ].
-      all: try (
-        (* readable body *)
-        pose proof (conn_step_ok sg r payload rest Ep Hne Ev Hls Hf21) as St; cbv zeta in St; fold s raw in St;
-        destruct (spec_one a r raw (skipn (q_offset r) s)) as [[resps keep] rest'] eqn:Esp;
-        destruct St as [S1 [S2 [S3 [S4 [S5 S6]]]]];
-        destruct (o_ok (handle_one_request a N true sg)) eqn:Eok;
-        [ destruct keep;
-          [ (* kept *)
-            destruct (S6 eq_refl) as [Hc [later [L1 [L2 [L3 [L4 L5]]]]]];
-            destruct (hc_cont F2 a N true sg acc nreq Eok (S5 eq_refl)) as [n' Hcont];
-            rewrite Hcont, S1, Hc, L1; cbn [negb andb]; subst rest'; rewrite <- L2;
-            apply IH; rewrite ?L2; try assumption; try lia;
-            rewrite <- L2 in Hun; exact Hun
-          | (* not kept *)
-            destruct (hc_stop F2 a N true sg acc nreq Eok (S5 eq_refl)) as [C1 C2];
-            rewrite C1, C2, S1, S2; cbn [fst snd]; split; [reflexivity|]; split; discriminate ]
-        | (* handler error *)
-          rewrite (S4 eq_refl) in *;
-          destruct (hc_err F2 a N true sg acc nreq Eok) as [C1 C2];
-          rewrite C1, C2, S1; cbn [fst snd]; split; [reflexivity|]; split; discriminate ]).
-      all: (* unreadable body: F21 excluded, so the handler reads it all and fails *)
-        pose proof (H_known_F21_bad sg r Hsne Ep Hne Ev Hf21) as Hrb;
-        unfold reads_body in Hrb;
-        destruct (hook_of a r) eqn:Eh; try discriminate;
-        destruct (behaviour_of a r) eqn:Eb; try discriminate;
-        destruct (hor_bad_body a N true sg r Ep Hne Ev Eh Eb) as [O1 O2];
-        destruct (hc_err F2 a N true sg acc nreq O2) as [C1 C2];
-        rewrite (spec_one_bad a r raw _ Hne Ev Eh Eb);
-        cbn [fst snd]; rewrite C1, C2, O1; (split; [reflexivity|]; split; discriminate).
+      * (* readable body *)
+        pose proof (conn_step_ok sg r payload rest Ep Hne Ev Hls) as St. cbv zeta in St. fold s raw in St.
+        destruct (spec_one a r raw (skipn (q_offset r) s)) as [[resps keep] rest'] eqn:Esp.
+        destruct St as [S1 [S2 [S3 [S4 [S5 S6]]]]].
+        destruct (o_ok (handle_one_request a N true sg)) eqn:Eok.
+        -- destruct keep.
+           ++ (* kept *)
+              destruct (S6 eq_refl) as [Hc [later [L1 [L2 [L3 L5]]]]].
+              destruct (hc_cont F2 a N true sg acc nreq Eok (S5 eq_refl)) as [n' Hcont].
+              rewrite Hcont, S1, Hc, L1. cbn [negb andb]. subst rest'. rewrite <- L2.
+              apply IH; rewrite ?L2; try assumption; try lia;
+                rewrite <- L2 in Hun; exact Hun.
+           ++ (* not kept *)
+              destruct (hc_stop F2 a N true sg acc nreq Eok (S5 eq_refl)) as [C1 C2].
+              rewrite C1, C2, S1, S2. cbn [fst snd]. split; [reflexivity|]. split; discriminate.
+        -- (* handler error *)
+           rewrite (S4 eq_refl) in *.
+           destruct (hc_err F2 a N true sg acc nreq Eok) as [C1 C2].
+           rewrite C1, C2, S1. cbn [fst snd]. split; [reflexivity|]. split; discriminate.
+      * (* unreadable body (fix F21): answered once, then the connection ends - on both sides *)
+        assert (Hcov : match hook_of a r, behaviour_of a r with HProceed, BReadK _ => false | _, _ => true end = true).
+        { destruct (hook_of a r); [destruct (behaviour_of a r)| |]; try reflexivity. exfalso. apply Hun. reflexivity. }
+        assert (Hnu : match hook_of a r, behaviour_of a r with HProceed, BReadK _ => true | _, _ => false end = false).
+        { destruct (hook_of a r); [destruct (behaviour_of a r)| |]; try reflexivity. discriminate Hcov. }
+        rewrite Hnu in Hun |- *.
+        destruct (hor_bad_body a N true sg r Ep Hne Ev Hcov) as [O1 [O2 [O3|[O3 O4]]]].
+        -- destruct (hc_err F2 a N true sg acc nreq O3) as [C1 C2].
+           destruct (spec_one_bad a r raw _ Hne Ev) as [rest' Esp]. rewrite Esp.
+           cbn [fst snd]. rewrite C1, C2, O1. split; [reflexivity|]. split; discriminate.
+        -- destruct (hc_stop F2 a N true sg acc nreq O3 O4) as [C1 C2].
+           destruct (spec_one_bad a r raw _ Hne Ev) as [rest' Esp]. rewrite Esp.
+           cbn [fst snd]. rewrite C1, C2, O1, O2. split; [reflexivity|]. split; discriminate.
     + (* no head *)
       assert (He : e = EEof \/ e <> EEof) by (destruct e; (left; reflexivity) || (right; discriminate)).
       destruct He as [He|He].
@@ -348,12 +402,12 @@ End Conn.
    (counterexample: N = 0, segs = []).  [N = 0 -> concat segs <> []] is the weakest such hypothesis. *)
 Theorem conn_transcript_partial : forall a N segs,
   (N = 0 -> concat segs <> []) ->
-  lockstep a N segs = true -> known_F21 a N segs = false ->
+  lockstep a N segs = true ->
   snd (spec_conn a N (concat segs)) <> EUnspec ->
   c_resps (serve_conn a N segs) = fst (spec_conn a N (concat segs)) /\
   (c_waiting (serve_conn a N segs) = true <-> snd (spec_conn a N (concat segs)) = EWaiting).
 Proof.
-  intros a N segs HN Hls Hf21 Hun. unfold serve_conn, spec_conn in *.
+  intros a N segs HN Hls Hun. unfold serve_conn, spec_conn in *.
   destruct N as [|N].
   - specialize (HN eq_refl). cbn [spec_conn_f]. destruct (concat segs) as [|x s'] eqn:Es; [congruence|].
     rewrite <- Es. cbn [firstn]. rewrite parse_request_nil. cbn [Nat.leb fst snd].
@@ -364,12 +418,12 @@ Proof.
     change (S (length segs) + length (concat segs)) with (S (length segs + length (concat segs))).
     rewrite C1, C2, O1, O4. split; [reflexivity|]. split; discriminate.
   - apply (conn_gen a (S N) ltac:(lia) head_prefix
-             (ServerConnLock.lockstep_split view_suffix offset_pos a (S N)) (ServerConnLock.known_F21_bad a (S N)));
+             (ServerConnLock.lockstep_split view_suffix offset_pos a (S N)));
       try assumption; lia.
 Qed.
 
 Corollary conn_transcript_pos : forall a N segs, 0 < N ->
-  lockstep a N segs = true -> known_F21 a N segs = false ->
+  lockstep a N segs = true ->
   snd (spec_conn a N (concat segs)) <> EUnspec ->
   c_resps (serve_conn a N segs) = fst (spec_conn a N (concat segs)) /\
   (c_waiting (serve_conn a N segs) = true <-> snd (spec_conn a N (concat segs)) = EWaiting).
